@@ -33,6 +33,32 @@ def handleBuiltin (st : St) (b : String) (parts : List (List String)) : String :
 def handle (st : St) (line : String) : St × Option String :=
   let parts := splitBar line
   let tidOf : Option String := match parts with | (_ :: tid :: _) :: _ => some tid | _ => none
+  if line.startsWith "J" then
+    (match parts with
+     | ("JV" :: vid :: toks) :: _ => ({ st with jtoks := st.jtoks.insert vid toks }, none)
+     | parts =>
+       let vid := (parts.head?.getD []).getD 2 ""
+       let trees : Std.HashMap String JVal := match st.jtoks[vid]? with
+         | some toks => (match parseJMap 0 toks with | some (m, _) => ({} : Std.HashMap String JVal).insert vid m | none => {})
+         | none => {}
+       (match parts with
+        | ("JO" :: _) :: _ => (st, some (samapOpLoop st trees parts))
+        | [h, path, out] =>
+          (match h.head? with
+           | some "JG" => (st, some (samapOpGet st trees h path out))
+           | some "JP" => (st, some (samapOpCopy st trees h path out))
+           | _ => (st, some "skip unknown-op"))
+        | [h, out] => (match h.head? with | some "JR" => (st, some (samapOpReset st trees h out)) | _ => (st, some "skip unknown-op"))
+        | [h, path, arg, out] =>
+          (match h.head? with
+           | some "JL" => (st, some (samapOpLC st trees h path arg out))
+           | some "JC" => (st, some (samapOpCmp st trees h path arg out))
+           | _ => (st, some "skip unknown-op"))
+        | [h, path, src, _mode, out] =>
+          (match h.head? with
+           | some "JS" => (st, some (samapOpSet st trees h path src out))
+           | _ => (st, some "skip unknown-op"))
+        | _ => (st, some "skip malformed"))) else
   if line.startsWith "X" then
     (match parts with
      | [["XC"], src, arg, out] => (st, some (staticOpCmp st src arg out))
